@@ -70,7 +70,7 @@ struct Gen {
     std::vector<long> used;
     for (int i = 0; i < nl; i++) {
       Recipe r; int tries = 0; std::shared_ptr<Link> l;
-      do { r = pool_recipe(c.master, g.below(pool), many_ch); if (p_bs64 > 0 && g.chance(p_bs64)) r.bs64 = 1; l = get_link(r); } while ((!l->ok || l->ref_err || r.n * r.ch > budget) && ++tries < 20);
+      do { r = pool_recipe(c.master, g.below(pool), many_ch); if (p_bs64 > 0 && g.chance(p_bs64)) { r.bs64 = 1; r.sig = g.chance(0.75) ? 6 : 1; r.n = std::max<int64_t>(r.n, 3000); } l = get_link(r); } while ((!l->ok || l->ref_err || r.n * r.ch > budget) && ++tries < 20);
       if (!l->ok || l->ref_err) continue;
       budget -= r.n * r.ch; if (budget < 2000) budget = 2000;
       Rec &lr = p.add("link"); r.to(lr);
@@ -152,7 +152,21 @@ struct Gen {
       if (g.chance(0.3)) read_op(0, 2);
     }
   }
+  void gen_refusal() {   // stream has a 64-sample link: ov_halfrate(1) must be refused and change nothing (twin comparison)
+    p.add("mirror");
+    int n = (int)g.range(3, thorough ? 16 : 10);
+    if (g.chance(0.5)) op("halfrate").set("flag", 1);
+    for (int i = 0; i < n; i++) {
+      double u = g.unit();
+      if (u < 0.3) op("halfrate").set("flag", 1);
+      else if (u < 0.4) op("tells");
+      else if (u < 0.7) seek_op("", true, 0.05);
+      else read_op(0.15);
+      if (g.chance(0.5)) read_op(0.15);
+    }
+  }
   void gen_halfrate(bool seekable) {
+    if (sr.has_bs64 && seekable) { gen_refusal(); return; }
     if (!seekable) { if (g.chance(0.8)) op("halfrate").set("flag", 1); linear_read(true); op("read_float").set("len", 64); return; }
     int n = (int)g.range(3, thorough ? 20 : 12); bool on = false;
     if (g.chance(0.4)) { op("halfrate").set("flag", 1); on = true; if (g.chance(0.3)) { linear_read(false); return; } }
@@ -239,6 +253,7 @@ std::vector<Plan> vfsim_simplify(const Plan &p) {
       if (r.i("read") != 2048) with(i, [](Rec &x) { x.set("read", 2048); });
     } else if (r.type == "link") {
       if (r.i("foreign")) with(i, [](Rec &x) { x.set("foreign", 0); });
+      if (r.i("cut") > 1) with(i, [](Rec &x) { x.set("cut", 1); });
       if (r.i("pol")) with(i, [](Rec &x) { x.set("pol", 0); });
     } else if (r.type == "op") {
       if (r.has("rep") && r.i("rep") != 1) with(i, [](Rec &x) { x.set("rep", 1); });
